@@ -386,6 +386,9 @@ func main() {
 	if *tier == "thorough" {
 		maxLen = 4
 	}
+	em.Watch("sshswarm", "the authentication-sequence rows", 6*time.Minute)
 	sshRows(em, maxLen)
+	em.Watch("quicswarm", "the TLS-configuration rows", 3*time.Minute)
 	quicRows(em)
+	em.Watch("", "", 0)
 }
